@@ -70,6 +70,10 @@ EXPR_PAIRS = [
     ('substring(0, 4).lower()', 'SUBSTRING(0, 4).upper()'), ('description.endswith("s")', 'description.endswith("S")'),
     ('regex("^\\D+$")', 'regex("^\\d+$")'), ('regex("\\W")', 'regex("\\w")'), ('regex("\\S")', 'regex("\\s")'), ('extract("(\\w+)")', 'extract("(\\W+)")'),
     ('regex(field.memo, "\\D")', 'regex(field.memo, "\\d")'),
+    # a name bound by := in one evaluation must not be visible to the next one (it may shadow variables, let bindings, primitives)
+    ('(net := abs(amount)) > 100', 'net > 100'), ('(label := "zz") == "zz"', 'label == "x"'), ('(threshold := 0) == 0', 'amount > threshold'),
+    ('[(last := r.amount) for r in orders]', 'last'), ('(amount := 5) == 5', 'amount'), ('(orders := 1) == 1', 'len(orders)'),
+    ('date >= "2024-01-01"', 'date == "2024-03-05"'),
 ]
 VARS_RULES = '''is_wire = field.type == "WIRE"
 has_ref = contains(field.memo, "REF")
